@@ -42,7 +42,7 @@ ASSUMPTIONS = [
     "all templates of one case share the same autoescape status (no .txt/.html mixing)",
 ]
 NSHARDS = {"quick": 16, "thorough": 16}
-BUDGET_S = {"quick": 17, "thorough": 540}
+BUDGET_S = {"quick": 14, "thorough": 540}
 N_CASES = {"quick": 700, "thorough": 20000}
 FLOORS = {
     "quick": {"evaluations": 1500, "distinct": 450,
